@@ -9,6 +9,7 @@
 extern crate iceoryx2_bb_loggers;
 
 mod h_c03;
+mod h_c09;
 mod kit;
 
 use kit::*;
@@ -18,6 +19,9 @@ fn harnesses() -> Vec<Box<dyn Harness>> {
         Box::new(h_c03::QueueHarness { kind: "iq" }),
         Box::new(h_c03::QueueHarness { kind: "oq" }),
         Box::new(h_c03::QueueHarness { kind: "q" }),
+        Box::new(h_c09::PoolHarness { kind: "uis" }),
+        Box::new(h_c09::PoolHarness { kind: "robust" }),
+        Box::new(h_c09::PoolHarness { kind: "alloc" }),
     ]
 }
 
@@ -34,17 +38,17 @@ fn spec_for<'a>(hs: &'a [Box<dyn Harness>], prop: &'a str) -> CheckSpec<'a> {
         eprintln!("no harness for property {prop}");
         std::process::exit(2);
     }
-    let (rule, assumptions): (&str, Vec<String>) = match prop {
-        "C03" => (
-            "one evaluation = one simulated execution of a generated producer/consumer(/hand-over) program over a real queue; schedule, stale loads, write splits drawn from the run seed. distinct_nontrivial = distinct (plan, context-switch/stale-read/split signature) pairs among runs with at least one context switch or injected fault",
-            vec![
-                "atomic.rs of iceoryx2-pal-concurrency-sync is replaced by the instrumented drop-in".into(),
-                "weak-memory behaviours are those of the view-based release/acquire/relaxed/SeqCst fragment; SeqCst is modelled slightly stronger than C11".into(),
-                "preemption only at atomic operations; plain writes between two atomics are split only in the sc+p1 mode".into(),
-            ],
-        ),
-        _ => ("see DESIGN.md", vec![]),
+    let common = vec![
+        "atomic.rs of iceoryx2-pal-concurrency-sync is replaced by the instrumented drop-in (layout identical); every other module is the working tree's code".to_string(),
+        "weak-memory behaviours are those of a view-based release/acquire/relaxed/SeqCst fragment of C11 with coherence across happens-before; SeqCst is modelled slightly stronger than C11 (never weaker)".to_string(),
+        "preemption only at atomic operations, fences and simulated blocking calls; plain writes between two yield points are split only in p1 modes".to_string(),
+    ];
+    let rule: &str = match prop {
+        "C03" => "one evaluation = one simulated execution of a generated producer/consumer(/hand-over) program over a real queue; schedule, stale loads, write splits drawn from the run seed. distinct_nontrivial = distinct (plan, context-switch/stale-read/split/kill signature) pairs among runs with at least one context switch or injected fault",
+        "C09" => "one evaluation = one simulated execution of 2..3 threads doing generated acquire/release(/lock-if-last) sequences on a real index set or pool allocator of capacity 1..4, one run in four of the robust set kills a thread mid-operation and recovers its owner id; distinct_nontrivial = distinct (plan, schedule/fault signature) pairs among runs with at least one context switch or injected fault",
+        _ => "one evaluation = one simulated execution of a generated scenario; distinct_nontrivial = distinct (plan, schedule/fault signature) pairs among runs with at least one context switch or injected fault",
     };
+    let assumptions = common;
     CheckSpec { property: prop, harnesses: list, level: "exploration", rule, assumptions }
 }
 
@@ -55,6 +59,9 @@ fn main() {
         std::process::exit(2);
     }
     silence_panics();
+    if let Some(c) = std::env::var("VSIM_CPU").ok().and_then(|c| c.parse::<usize>().ok()) {
+        pin_to_cpu(c);
+    }
     iceoryx2_log::set_log_level(iceoryx2_log::LogLevel::Fatal);
     let hs = harnesses();
     match args[1].as_str() {
@@ -74,6 +81,12 @@ fn main() {
             let (rs, _m, _d, plan, cfg) = derive_run(h, seed, idx, mode);
             let r = h.execute(&plan, &cfg, iceoryx2_pal_concurrency_sync::sim::Decisions::Seeded(rs));
             println!("{:016x}", r.report.fingerprint);
+            if std::env::var("VSIM_TRACE").is_ok() {
+                for l in &r.report.log_tail {
+                    eprintln!("{l}");
+                }
+                eprintln!("{:?} {:?}", r.report.outcome, r.violation.map(|v| v.msg));
+            }
         }
         "--replay" => {
             let rf: ReplayFile = serde_json::from_str(&std::fs::read_to_string(&args[2]).expect("read replay file")).expect("parse replay file");
